@@ -162,8 +162,8 @@ def real_ids(inp):
         tracks_of.append([AudioTrackFormat(audioTrackFormatName="t", format=FormatDefinition.PCM, audioStreamFormat=s)
                           for _ in range(nt)])
     # interleave the track formats of different streams (the real code filters by stream identity)
-    order = [tf for group in zip(*[g + [None] * (max(map(len, tracks_of), default=0) - len(g)) for g in tracks_of])
-             for tf in group if tf is not None] if tracks_of else []
+    mx = max(map(len, tracks_of), default=0)
+    order = [g[i] for i in range(mx) for g in tracks_of if i < len(g)]
     for tf in order: adm.addAudioTrackFormat(tf)
     for i in range(unl):
         adm.addAudioTrackFormat(AudioTrackFormat(audioTrackFormatName="u", format=FormatDefinition.PCM))
@@ -419,8 +419,9 @@ class C08(Spec):
             (0, 0, 0x10001, 0, [0xFFF, 0x1000], [], [(3, 0xFFFF), (1, 0x10001)], []),
         ]
         if not ctx.quick:
+            # (generate_ids scans all track formats once per stream: keep the many-streams case free of tracks)
             ins.append((0xEFFF, 0xF000, 0, 0, [0] * 0xF001, [T() for _ in range(0xF000)], [(T(), 1)] * 0xF000,
-                        [(T(), 1)] * 0xF000))
+                        [(T(), 0)] * 0xF001))
             ins.append((0, 0, 0, 0, [0xFFFF, 0x10000], [], [], []))
         else:
             # width boundary of the 4-digit counters: 0xEFFF elements fit, the 0xF000th gets five digits
